@@ -134,6 +134,11 @@ impl NetworkBottleneck {
         current_time: &Instant,
         client_expiry: bool,
     ) {
+        #[cfg(feature = "verif")]
+        crate::verif::rec(|| crate::verif::Rec::AggregatePushed {
+            client: client_expiry,
+            delay: block_duration,
+        });
         // TODO: refine the network model, for now, we sample the delay once and
         // assume it's the same delay in both directions as well as between
         // client-server and server-destination.
@@ -319,6 +324,11 @@ pub(crate) fn sim_network_stack<M: AsRef<[Machine]>>(
                                 "\treplaced padding sent with blocked queued normal @{}",
                                 side
                             );
+                            #[cfg(feature = "verif")]
+                            crate::verif::rec(|| crate::verif::Rec::Replaced {
+                                client: next.client,
+                                requeued: false,
+                            });
                             return false;
                         }
 
@@ -357,6 +367,11 @@ pub(crate) fn sim_network_stack<M: AsRef<[Machine]>>(
                         }
 
                         sq.push_sim(entry);
+                        #[cfg(feature = "verif")]
+                        crate::verif::rec(|| crate::verif::Rec::Replaced {
+                            client: next.client,
+                            requeued: true,
+                        });
                         return false;
                     }
                 }
@@ -424,6 +439,12 @@ pub(crate) fn sim_network_stack<M: AsRef<[Machine]>>(
                     TriggerEvent::TunnelRecv,
                     reported - *current_time
                 );
+                #[cfg(feature = "verif")]
+                crate::verif::rec(|| crate::verif::Rec::RecvScheduled {
+                    client: !next.client,
+                    time: reported,
+                    padding: false,
+                });
                 return true;
             }
 
@@ -445,6 +466,12 @@ pub(crate) fn sim_network_stack<M: AsRef<[Machine]>>(
                 TriggerEvent::TunnelRecv,
                 reported - *current_time
             );
+            #[cfg(feature = "verif")]
+            crate::verif::rec(|| crate::verif::Rec::RecvScheduled {
+                client: !next.client,
+                time: reported,
+                padding: true,
+            });
             true
         }
         TriggerEvent::TunnelRecv => {
